@@ -1,7 +1,8 @@
 """C01 — TFIM sampler and the quantum thermal state (partial by nature; see QmcProps/C01.lean)."""
+from checks import full_step
 from checks import pure_fns
-LEAN_TARGETS = ["QmcProps.C01", "drv_c01", "QmcProps.C08", "drv_c08", "QmcProps.C09", "drv_c09", "QmcProofs.KernelInvariance", "QmcProps.C17", "drv_c17"]
-BINS = ["c01", "c08", "c09", "c17"]
+LEAN_TARGETS = ["drv_step", "QmcProofs.SamplerStep", "QmcProofs.SamplerCluster", "QmcProps.C01", "drv_c01", "QmcProps.C08", "drv_c08", "QmcProps.C09", "drv_c09", "QmcProofs.KernelInvariance", "QmcProps.C17", "drv_c17"]
+BINS = ["fullstep", "c01", "c08", "c09", "c17"]
 
 # Theorems of other properties that C01's claim rests on (kernel invariance of the SSE weight): they are
 # audited here too, and their correspondence modes are re-run, so that a change to the diagonal or cluster
@@ -70,4 +71,5 @@ def main(ck):
         ck.correspond("energy-measuring-loop-ising", "drv_c17", ck.harness("c17", ["ising"]))
     ck.notes.append("Kernel invariance of the SSE weight is decided by C08 (slot ratio + weight_step) and C09 (cluster move "
                     "weight-preserving, symmetric); ergodicity and L -> infinity are not theorems.")
+    full_step.run(ck, modes=["ising"], audit=True)   # whole-timestep exact trajectories + preservation theorems
     return ck.finish(RULE)
